@@ -61,6 +61,10 @@ def spaces(tier):
             out.append(cs.db_space(n, cs.COMBOS[n % 4], 0, binary=True))
         for n in (2, 3, 4):
             out.append(cs.db_space(n, cs.COMBOS[n % 4], 2, cli=True))
+    for combo in cs.EXTREME:
+        out.append(cs.db_space(3, combo, 1))
+        if tier == 'thorough':
+            out.append(cs.db_space(5, combo, 1))
     return out
 
 
